@@ -121,7 +121,9 @@ impl FromStr for Qtype {
     type Err = &'static str;
 
     fn from_str(text: &str) -> Result<Self, Self::Err> {
-        match Caseless(text) {
+        // Patterns match structurally (i.e. case-sensitively), so the
+        // text is normalized to upper case first.
+        match Caseless(&text.to_ascii_uppercase()) {
             Caseless("IXFR") => Ok(Self::IXFR),
             Caseless("AXFR") => Ok(Self::AXFR),
             Caseless("MAILB") => Ok(Self::MAILB),
@@ -198,7 +200,9 @@ impl FromStr for Qclass {
     type Err = &'static str;
 
     fn from_str(text: &str) -> Result<Self, Self::Err> {
-        match Caseless(text) {
+        // Patterns match structurally (i.e. case-sensitively), so the
+        // text is normalized to upper case first.
+        match Caseless(&text.to_ascii_uppercase()) {
             Caseless("NONE") => Ok(Self::NONE),
             Caseless("ANY") => Ok(Self::ANY),
             Caseless("*") => Ok(Self::ANY),
